@@ -757,6 +757,19 @@ func drawSimGraph(r *Rng, tier string, pool []simKernel) *SimGraph {
 			pairCase = 1 // index of the longer-named model in g.Models
 		}
 	}
+	// CHAIN class: a source model with stored inputs in generation 0 feeding a chain of equally sized generations of ONE model that
+	// has no stored inputs (its input blocks are allocated by ow-sim, generation after generation, while the writer purges the earlier
+	// ones): anything recycled or carried between generations of one model (buffers, caches keyed by shape) shows only here, and only
+	// when every generation actually receives non-zero inflow through its links.
+	chain := pairCase < 0 && len(pool) >= 2 && r.Chance(0.15)
+	chainCount := r.Range(1, 3)
+	if chain {
+		M = 2
+		g.G = r.Range(4, 7)
+		if g.T < 2 {
+			g.T = r.Range(2, 16)
+		}
+	}
 	nodesLeft := 30
 	anyInputs := false
 	for mi := 0; mi < M; mi++ {
@@ -764,6 +777,9 @@ func drawSimGraph(r *Rng, tier string, pool []simKernel) *SimGraph {
 		d := NewModel(k.Name).Description()
 		m := &SimModel{Name: k.Name, NP: len(d.Parameters), NI: len(d.Inputs), NS: len(d.States)}
 		m.HasInputs = r.Chance(0.65)
+		if chain {
+			m.HasInputs = mi == 0
+		}
 		// counts per generation: many empty batches
 		emptyP := r.Uniform(0.1, 0.7)
 		allEmpty := r.Chance(0.04)
@@ -772,6 +788,12 @@ func drawSimGraph(r *Rng, tier string, pool []simKernel) *SimGraph {
 			c := 0
 			if !allEmpty && !r.Chance(emptyP) {
 				c = r.Range(1, 3)
+			}
+			if chain {
+				c = 0
+				if (mi == 0) == (gen == 0) {
+					c = chainCount
+				}
 			}
 			if c > nodesLeft {
 				c = nodesLeft
@@ -845,6 +867,24 @@ func drawSimGraph(r *Rng, tier string, pool []simKernel) *SimGraph {
 		if want > 60 {
 			want = 60
 		}
+	}
+	if chain {
+		// every node of generation g feeds the node with the same position in generation g+1
+		want = r.Range(0, 4) // plus a few random links
+		for gen := 0; gen+1 < g.G; gen++ {
+			sm := 1
+			if gen == 0 {
+				sm = 0
+			}
+			for k := 0; k < chainCount; k++ {
+				sn, dn := g.Models[sm].Start(gen)+k, g.Models[1].Start(gen+1)+k
+				if sn >= g.Models[sm].Batches[gen] || dn >= g.Models[1].Batches[gen+1] || g.Models[1].NI == 0 {
+					continue
+				}
+				g.Links = append(g.Links, [10]int{gen, sm, sn, k, r.Intn(nOut[sm]), gen + 1, 1, dn, k, r.Intn(g.Models[1].NI)})
+			}
+		}
+		want += len(g.Links)
 	}
 	var last *[10]int
 	for tries := 0; len(g.Links) < want && tries < 20*want+20; tries++ {
